@@ -669,6 +669,8 @@ def cascade_net(rng, idx=0, h=None, w=None, c=None, specs=None, dtype="int8"):
             new = b.conv(cur, c, (k, k), (s, s), (1, 1), p, act=rng.choice([0, 1]))
         elif kind == "dw":
             new = b.dwconv(cur, (k, k), (s, s), (1, 1), p)
+        elif kind == "lut":
+            new = b.unary(rng.choice(["TANH", "LOGISTIC", "LEAKY_RELU", "TANH"]), cur)
         else:
             new = b.pool(cur, rng.choice(["MAX_POOL_2D", "AVERAGE_POOL_2D"]), (max(k, 2), max(k, 2)), (s, s), p)
         if new is None:
@@ -839,7 +841,7 @@ def weird_net(rng, idx=0):
 # LUT reuse, deep weight slicing, single-channel FC after buffered convs, bias-less convs, ...)
 
 PATTERNS = ["multi_input", "input_npu_and_cpu", "residual", "lut_reuse", "deep_slices", "fc1_after_conv", "nobias",
-            "casc_s2_valid", "two_npu_islands", "concat_slices", "shared_weights", "big_fm_u65", "avgpool_chain", "minmax_lrelu"]
+            "casc_s2_valid", "two_npu_islands", "concat_slices", "shared_weights", "big_fm_u65", "avgpool_chain", "minmax_lrelu", "reshape_fork"]
 
 
 def pattern_net(rng, idx=0, pattern=None):
@@ -985,6 +987,28 @@ def pattern_net(rng, idx=0, pattern=None):
         y = b.pool(y, "AVERAGE_POOL_2D", (2, 2), (2, 2), "VALID")
         y = b.unary("RELU6", y)
         return b.finish([y])
+    if pattern == "reshape_fork":
+        # a produced feature map with two consumers, one of them through a memory-only operator that cannot be
+        # bypassed (so it becomes a copy) followed by an elementwise operator that may work in place
+        c = rng.choice([4, 8, 16])
+        h, w = rng.choice([4, 6, 8, 12]), rng.choice([4, 8, 12, 16])
+        x = b.input([1, h, w, c])
+        t = b.conv(x, c, (1, 1), (1, 1), (1, 1), "SAME") if rng.random() < 0.8 else b.unary("ABS", x)
+        new_shape = rng.choice([[1, h * 2, w // 2, c], [1, h // 2, w * 2, c], [1, h * w, 1, c], [1, h, w, c]])
+        r = b.reshape(t, new_shape)
+        k = rng.choice(["addc", "addc", "abs", "lrelu", "mulc"])
+        if k == "abs":
+            o1 = b.unary("ABS", r)
+        elif k == "lrelu":
+            o1 = b.unary("LEAKY_RELU", r)
+        else:
+            lo, hi = _qrange(dtype)
+            rt = b.t(r)
+            c2 = b.const([1, 1, 1, c], dtype, [rng.randint(lo, hi) for _ in range(c)], [rt.scales[0]], [rt.zps[0]])
+            o1 = b.binary("ADD" if k == "addc" else "MUL", r, c2)
+        o2 = b.conv(t, c, (1, 1), (1, 1), (1, 1), "SAME") if rng.random() < 0.8 else b.unary("ABS", t)
+        outs = [o1, o2] if rng.random() < 0.7 else [o2, o1]
+        return b.finish(outs)
     # minmax_lrelu
     shp = [1, rng.randint(2, 10), rng.randint(2, 10), rng.choice([4, 16])]
     x, x2 = b.input(shp), b.input(shp)
